@@ -6,7 +6,7 @@ import ast
 from fractions import Fraction
 from typing import Dict, List, Optional
 
-from .. import alg
+from .. import alg, pat
 from ..callgraph import CallGraph
 from ..cfg import cfg_of
 from ..model import FunctionInfo, AnalysisError
@@ -50,7 +50,7 @@ def run(ctx: Ctx):
               f"state axis extent len({s_space}) matches the list states are indexed through {idx_lists}", "",
               f"state arrays are allocated with len({s_space}) rows but indexed with positions in {idx_lists}: when the two collections differ in size "
               f"(e.g. unreachable states in the state list) indexing goes out of bounds or aliases states")
-    ia = [n for n in fn_body_nodes(tr) if isinstance(n, ast.Assign) and ast.unparse(n.targets[0]) == "index_to_action"]
+    ia = [n for n, _ in pat.find(tr.node, "V_m = dict(enumerate(E_l))")]
     ok = bool(ia) and a_space is not None and ast.unparse(ia[0].value) == f"dict(enumerate({a_space}))"
     ctx.check(ok, "TEN-6", tr, ia[0] if ia else tr.node, f"action indices are positions in {a_space}, the list the action axis was sized by", "",
               f"action axis is sized by len({a_space}) but action indices are decoded with `{ast.unparse(ia[0].value) if ia else None}`")
@@ -101,38 +101,52 @@ def run(ctx: Ctx):
         ctx.check(ok, "SIM-8", ob, trig[0] if trig else g, "the model is re-solved exactly when a pair reaches the threshold", "", "re-solve trigger changed")
         if trig and c is not None:
             ctx.check(g.body.index(trig[0]) > g.body.index(c), "SIM-8", ob, trig[0], "threshold test follows the increment", "", "threshold is tested before the count is incremented")
-    # ---------------- VI-1 masked empirical backup
+    # ---------------- VI-1 masked empirical backup (patterns with metavariables: independent of local names)
     vi = C.methods["_value_iteration"]
-    sv = {ast.unparse(n.targets[0]): n for n in ast.walk(vi.node) if isinstance(n, ast.Assign)}
-    m = sv.get("mask")
-    ctx.check(m is not None and ast.unparse(m.value).replace(" ", "") == "self.s_a_counts>=self.m", "VI-1", vi, m if m is not None else vi.node, "known pairs: count >= m", "", "mask of known pairs changed")
-    st_q = sv.get("self.q_matrix[mask]")
-    ctx.check(st_q is not None and ast.unparse(st_q.value) == "new_q[mask]", "VI-1", vi, st_q if st_q is not None else vi.node,
-              "only known pairs are overwritten (mask on both sides)", "", "the Q update also overwrites pairs tried fewer than m times (they must keep the optimistic value)")
-    other = [n for n in ast.walk(vi.node) if isinstance(n, (ast.Assign, ast.AugAssign)) and "self.q_matrix" in ast.unparse(n.targets[0] if isinstance(n, ast.Assign) else n.target)
-             and n is not st_q]
+    gam = vi.positional_params[1] if len(vi.positional_params) > 1 else "gamma"
+    stmts = [n for n in ast.walk(vi.node) if isinstance(n, ast.stmt)]
+    mn, me = pat.first(vi.node, "V_mask = self.s_a_counts >= self.m", nodes=stmts)
+    ctx.check(mn is not None, "VI-1", vi, mn if mn is not None else vi.node, "known pairs: count >= m", "", "mask of known pairs (count >= m) not found")
+    env = dict(me or {})
+    qn, qe = pat.first(vi.node, "self.q_matrix[V_mask] = V_newq[V_mask]", env, nodes=stmts)
+    q_stores = [n for n in stmts if isinstance(n, (ast.Assign, ast.AugAssign)) and "self.q_matrix" in ast.unparse(n.targets[0] if isinstance(n, ast.Assign) else n.target)]
+    if qn is None and q_stores:
+        ctx.violation("VI-1", vi, q_stores[0], "only known pairs are overwritten (mask on both sides)",
+                      f"`{norm(q_stores[0])}` also overwrites pairs tried fewer than m times (they must keep the optimistic value)")
+    else:
+        ctx.check(qn is not None, "VI-1", vi, qn if qn is not None else vi.node, "only known pairs are overwritten (mask on both sides)", "", "no masked store into the Q matrix")
+    other = [n for n in q_stores if n is not qn]
     ctx.check(not other, "VI-1", vi, other[0] if other else vi.node, "no other store into q_matrix", "", f"`{norm(other[0]) if other else ''}` writes Q outside the mask")
-    nq = sv.get("new_q")
+    env = dict(qe or env)
+    newq = env.get("newq")
+    nq = next((n for n in stmts if isinstance(n, ast.Assign) and isinstance(n.targets[0], ast.Name) and n.targets[0].id == newq), None) if newq else None
     if nq is not None:
-        p = alg.normalise(nq.value)
-        ein = [k for m_ in p for k, _ in m_ if k.startswith("np.einsum(")]
-        ok = len(p) == 2 and p.get((("empirical_reward_mat", 1),)) == 1 and len(ein) == 1 and p.get(tuple(sorted(((ein[0], 1), ("gamma", 1))))) == 1
-        ctx.check(ok, "VI-1", vi, nq, "backup = R^ + gamma * (P^ . max_a Q)", alg.show(p), f"backup normalises to `{alg.show(p)}`")
-        ok = bool(ein) and ein[0].replace(" ", "") == "np.einsum('san,n->sa',empirical_transition_mat,v)"
-        ctx.check(ok, "VI-1", vi, nq, "future term contracts the successor axis of P^ with the state values", "", f"future term is `{ein[0] if ein else None}`")
-    v = sv.get("v")
-    ctx.check(v is not None and ast.unparse(v.value).replace(" ", "") == "np.max(self.q_matrix,axis=-1)", "VI-1", vi, v if v is not None else vi.node, "state value = max over actions of Q", "", "state values are not max_a Q")
-    er, et = sv.get("empirical_reward_mat"), sv.get("empirical_transition_mat")
-    ctx.check(er is not None and ast.unparse(er.value).replace(" ", "") == "self.rewards/pseudo_count", "VI-1", vi, er if er is not None else vi.node, "R^ = reward sum / count", "", "empirical reward changed")
-    ctx.check(et is not None and ast.unparse(et.value).replace(" ", "") == "self.transitions/pseudo_count[:,:,None]", "VI-1", vi, et if et is not None else vi.node, "P^ = transition counts / count", "", "empirical transition model changed")
-    sl = sv.get("empirical_transition_mat[~mask]")
-    ctx.check(sl is not None and ast.unparse(sl.value) == "self._self_transition_mat[~mask]", "VI-1", vi, sl if sl is not None else vi.node, "unknown pairs are self-loops", "", "unknown pairs are not modelled as self-loops")
+        bn, be = pat.first(nq, f"V_newq = V_R + {gam} * np.einsum(E_spec, V_P, V_v)", env, nodes=[nq])
+        p_ = alg.normalise(nq.value)
+        ctx.check(bn is not None, "VI-1", vi, nq, "backup = R^ + gamma * (P^ . max_a Q)", alg.show(p_), f"backup normalises to `{alg.show(p_)}`")
+        if bn is not None:
+            env = be
+            spec = be["spec"]
+            ok = isinstance(spec, ast.Constant) and str(spec.value).replace(" ", "") == "san,n->sa"
+            ctx.check(ok, "VI-1", vi, nq, "future term contracts the successor axis of P^ with the state values", "", f"future term contracts `{pat.txt(spec)}`")
+            vn, _ = pat.first(vi.node, "V_v = np.max(self.q_matrix, axis=-1)", env, nodes=stmts)
+            ctx.check(vn is not None, "VI-1", vi, vn if vn is not None else nq, "state value = max over actions of Q", "", "state values are not max_a Q")
+            rn, re_ = pat.first(vi.node, "V_R = self.rewards / V_cnt", env, nodes=stmts)
+            ctx.check(rn is not None, "VI-1", vi, rn if rn is not None else nq, "R^ = reward sum / count", "", "empirical reward changed")
+            if re_:
+                env = re_
+            tn, _ = pat.first(vi.node, "V_P = self.transitions / V_cnt[:, :, None]", env, nodes=stmts)
+            ctx.check(tn is not None, "VI-1", vi, tn if tn is not None else nq, "P^ = transition counts / count", "", "empirical transition model changed")
+            sn, _ = pat.first(vi.node, "V_P[~V_mask] = self._self_transition_mat[~V_mask]", env, nodes=stmts)
+            ctx.check(sn is not None, "VI-1", vi, sn if sn is not None else nq, "unknown pairs are self-loops", "", "unknown pairs are not modelled as self-loops")
+    else:
+        ctx.unknown("VI-1", vi, vi.node, "empirical backup", "definition of the new Q not found")
     brk = [n for n in ast.walk(vi.node) if isinstance(n, ast.If) and any(isinstance(b, ast.Break) for b in n.body)]
-    ok = bool(brk) and ast.unparse(brk[0].test).replace(" ", "") == "np.all(np.abs(self.q_matrix[mask]-new_q[mask])<self.bellman_convergence_diff)"
+    ok = bool(brk) and pat.m("np.all(np.abs(self.q_matrix[V_mask] - V_newq[V_mask]) < self.bellman_convergence_diff)", brk[0].test, env) is not None
     ctx.check(ok, "VI-1", vi, brk[0] if brk else vi.node, "re-solve stops when all known pairs changed by less than the configured tolerance", "", "stop rule of the re-solve changed")
     stm = C.methods["_self_transition_mat"]
-    ok = "self_transition_mat[np.arange(self.n_states), :, np.arange(self.n_states)] = 1" in ast.unparse(stm.node)
-    ctx.check(ok, "VI-1", stm, stm.node, "self-loop tensor: P(s | s, a) = 1", "", "self-loop tensor changed")
+    sn2, _ = pat.first(stm.node, "V_m[np.arange(self.n_states), :, np.arange(self.n_states)] = 1")
+    ctx.check(sn2 is not None, "VI-1", stm, stm.node, "self-loop tensor: P(s | s, a) = 1", "", "self-loop tensor changed")
     # ---------------- training loop
     loops = SL.find_loops(tr)
     if len(loops) != 1:
@@ -162,26 +176,55 @@ def run(ctx: Ctx):
     ctx.check(bool(rets) and ast.unparse(rets[0].value) == "self.q_matrix", "WIRE-1", tr, rets[0] if rets else tr.node, "training returns the learned Q matrix", "", "training returns something else")
     # ---------------- labels
     cq = C.methods["_create_q"]
-    src = ast.unparse(cq.node)
-    ok = "index_to_state = dict(enumerate(mdp.state_list))" in src and "index_to_action = dict(enumerate(mdp.action_list))" in src \
-        and "s = index_to_state[si]" in src and "a = index_to_action[ai]" in src and "q[s][a] = q_matrix[si, ai]" in src
-    ctx.check(ok, "LAB-1", cq, cq.node, "q[state_list[i]][action_list[j]] = q_matrix[i, j]", "", "Q dictionary labelling changed")
-    ok = "range(q_matrix.shape[0])" in src and "range(q_matrix.shape[1])" in src
+    qm, mdp_p = cq.positional_params[1:3]
+    s_map, e1 = pat.first(cq.node, f"V_i2s = dict(enumerate({mdp_p}.state_list))")
+    a_map, e2 = pat.first(cq.node, f"V_i2a = dict(enumerate({mdp_p}.action_list))")
+    env = dict(e1 or {}); env.update(e2 or {})
+    st_, e3 = pat.first(cq.node, f"V_q[V_s][V_a] = {qm}[V_si, V_ai]", env)
+    ok = s_map is not None and a_map is not None and st_ is not None
+    if ok:
+        env = e3
+        ok = pat.first(cq.node, "V_s = V_i2s[V_si]", env)[0] is not None and pat.first(cq.node, "V_a = V_i2a[V_ai]", env)[0] is not None
+    ctx.check(ok, "LAB-1", cq, st_ if st_ is not None else cq.node, "q[state_list[i]][action_list[j]] = q_matrix[i, j]", "", "Q dictionary labelling changed")
+    ok = False
+    if st_ is not None:
+        l0 = [n for n in ast.walk(cq.node) if isinstance(n, ast.For) and isinstance(n.target, ast.Name)]
+        rng_ = {n.target.id: ast.unparse(n.iter).replace(" ", "") for n in l0}
+        ok = rng_.get(env["si"]) == f"range({qm}.shape[0])" and rng_.get(env["ai"]) == f"range({qm}.shape[1])"
     ctx.check(ok, "LAB-1", cq, cq.node, "rows iterate axis 0, columns axis 1", "", "label loops iterate the wrong axes")
     # ---------------- policy and wiring
     cp = C.methods["_create_policy"]
-    psrc = ast.unparse(cp.node)
-    ok = "maxq = max(action_vals.values())" in psrc and "[a for a in action_vals.keys() if action_vals[a] == maxq]" in psrc and "DictDistribution.uniform(max_actions)" in psrc
-    ctx.check(ok, "POL-1", cp, cp.node, "greedy policy: uniform over exact maximisers of the state's Q row", "", "greedy policy changed")
-    ctx.check("max_actions = mdp.actions(s)" in psrc, "POL-1", cp, cp.node, "unknown states: all available actions", "", "fallback changed")
+    pol = list(cp.nested.values())
+    if pol:
+        f = pol[0]
+        sp = f.positional_params[0]
+        qp = cp.positional_params[2]
+        mx, em = pat.first(f.node, "V_maxq = max(V_row.values())")
+        ok = mx is not None and pat.first(f.node, f"V_row = {qp}[{sp}]", em)[0] is not None
+        comp = [n for n in ast.walk(f.node) if isinstance(n, ast.ListComp)]
+        ok = ok and bool(comp) and pat.m("[V_a for V_a in V_row.keys() if V_row[V_a] == V_maxq]", comp[0], em) is not None
+        ctx.check(ok, "POL-1", f, mx if mx is not None else f.node, "greedy policy: exact maximisers of the state's Q row", "", "greedy set is not {a : Q[s][a] == max Q[s]}")
+        rets = [r for r in ast.walk(f.node) if isinstance(r, ast.Return)]
+        ctx.check(bool(rets) and all(isinstance(r.value, ast.Call) and ast.unparse(r.value.func).endswith("uniform") for r in rets), "POL-1", f, f.node, "uniform over the greedy set", "", "policy is not uniform over the greedy set")
+        hs = [h for h in ast.walk(f.node) if isinstance(h, ast.ExceptHandler)]
+        ok = bool(hs) and any(pat.m(f"V_x = {cp.positional_params[1]}.actions({sp})", x) is not None for x in hs[0].body)
+        ctx.check(ok, "POL-1", f, hs[0] if hs else f.node, "unknown states: all available actions", "", "fallback changed")
+    else:
+        ctx.violation("POL-1", cp, cp.node, "greedy policy closure", "policy closure vanished")
     to = C.methods["train_on"]
-    tsrc = ast.unparse(to.node)
-    ok = "q_matrix = self._training(mdp, rng, event_listener)" in tsrc and "q = self._create_q(q_matrix, mdp)" in tsrc and "policy=self._create_policy(mdp, q)" in tsrc and "q_values=q" in tsrc
+    mp_ = to.positional_params[1]
+    t1, e1 = pat.first(to.node, f"V_qm = self._training({mp_}, V_rng, V_el)")
+    t2, e2 = pat.first(to.node, f"V_q = self._create_q(V_qm, {mp_})", e1)
+    rets = [n for n in fn_body_nodes(to) if isinstance(n, ast.Return) and isinstance(n.value, ast.Call)]
+    ok = t1 is not None and t2 is not None and bool(rets) and kwarg(rets[0].value, "q_values") is not None and ast.unparse(kwarg(rets[0].value, "q_values")) == e2["q"] \
+        and kwarg(rets[0].value, "policy") is not None and ast.unparse(kwarg(rets[0].value, "policy")).replace(" ", "") == f"self._create_policy({mp_},{e2['q']})"
     ctx.check(ok, "WIRE-1", to, to.node, "train_on: Q dictionary and policy are built from the trained matrix", "", "train_on wiring changed")
-    ctx.check(tsrc.index("self._init_training(mdp)") < tsrc.index("self._training("), "WIRE-1", to, to.node, "model is initialised before training", "", "initialisation order changed")
+    tsrc = ast.unparse(to.node)
+    ctx.check(tsrc.index("self._init_training(") < tsrc.index("self._training("), "WIRE-1", to, to.node, "model is initialised before training", "", "initialisation order changed")
     actf = C.methods["_act"]
-    asrc = ast.unparse(actf.node)
-    ok = "rng.choice(range(self.n_actions))" in asrc and "np.argmax(self.q_matrix[state])" in asrc
+    stp, rngp = actf.positional_params[1:3]
+    asrc = ast.unparse(actf.node).replace(" ", "")
+    ok = f"{rngp}.choice(range(self.n_actions))" in asrc and f"np.argmax(self.q_matrix[{stp}])" in asrc
     ctx.check(ok, "POL-1", actf, actf.node, "behaviour: greedy in the current Q row, random among all actions on full ties", "", "behaviour policy changed")
     arg_permutation_rule(ctx, G, [x for x in P.all_functions() if x.module.name == "msdm.algorithms.rmax"], "ARG")
     for rr, k in (("TEN-6", 5), ("ALG-4", 2), ("SIM-8", 6), ("VI-1", 10), ("SIM-1", 1), ("SIM-2", 2), ("SIM-3", 1), ("SIM-4", 2), ("OBS-1", 2),
